@@ -259,6 +259,49 @@ def install(I):
         return mk(found, 'int') if found is not None else None
     fn('exit_jump_target', exit_jump_target)
 
+    def jump_targets(I_, p, cond, target):
+        """some JUMP with this condition emitted since entry lands exactly on `target`"""
+        items = I_.read_items(p.attrs['_code_gen'].attrs['_code'])
+        tot, cs = z3.IntVal(0), []
+        for x in items:
+            if isinstance(x, PyObj) and x.cls.name == 'Instruction' and getattr(x.attrs['op_code'], 'name', '') == 'JUMP' \
+                    and getattr(x.attrs['param0'], 'name', '') == cond and x.attrs['param1'] is not None:
+                cs.append(tot + to_term(x.attrs['param1'], 'int') == to_term(target, 'int'))
+            tot = tot + (x.n if isinstance(x, Segment) else 1)
+        return mk(z3.Or(*cs), 'bool') if cs else False
+    fn('jump_targets', jump_targets)
+
+    def exit_sequence_ok(I_, p, tgt=None):
+        """the loop-exit jump lands on an item boundary E <= index of END_LOOP; the items from E up to END_LOOP (the
+        clean-up that pops unvisited names after a break; empty for non-iterating loops) contain only jumps that stay
+        inside [E, index of END_LOOP]"""
+        items = I_.read_items(p.attrs['_code_gen'].attrs['_code'])
+        if tgt is None:
+            tgt = exit_jump_target(I_, p)
+        if tgt is None:
+            return False
+        tgt = to_term(tgt, 'int')
+        starts, tot = [], z3.IntVal(0)
+        for x in items:
+            starts.append(tot)
+            tot = tot + (x.n if isinstance(x, Segment) else 1)
+        end_loop_at = z3.simplify(tot - 1)
+        cases = []
+        for k in range(1, len(items)):
+            conds = [tgt == starts[k]]
+            for j in range(k, len(items) - 1):
+                x = items[j]
+                if isinstance(x, Segment):
+                    conds.append(z3.BoolVal(False))          # no nested phrase code in the exit sequence
+                elif getattr(x.attrs['op_code'], 'name', '') == 'JUMP' and x.attrs['param1'] is not None:
+                    t2 = starts[j] + to_term(x.attrs['param1'], 'int')
+                    conds.append(z3.And(t2 >= starts[k], t2 <= end_loop_at))
+                elif getattr(x.attrs['op_code'], 'name', '') in ('LOOP', 'END_LOOP', 'JSR', 'RETURN', 'END', 'ROUTINE'):
+                    conds.append(z3.BoolVal(False))
+            cases.append(z3.And(*conds))
+        return mk(z3.Or(*cases), 'bool') if cases else False
+    fn('exit_sequence_ok', exit_sequence_ok)
+
     def falsy(I_, r):
         return r is None or r is False
     fn('falsy', falsy)
